@@ -7,6 +7,8 @@ CONSTANTS
   PB = 0
   BCmds = {}
   BObjs = {}
+  HC = 0
+  PC = 0
   LimPlan = 0
   LimR = 0
   SetR = 0
